@@ -122,6 +122,15 @@ Section Derive.
     mkRU (map (fun '(k, _) => (k, make_simple k)) (ro_simple r)) []
          (map (fun '(a, i) => (a, make_aggr a (ri_auths i))) (ro_aggr r)) [].
 
+  (** The repair proposed for finding F04c (not in the tree): the renewal re-issues only what the certificate of the
+      signing key holds - a simple ROA outside it is removed, an aggregate ROA is re-issued with the authorisations
+      that remain, or removed if none does. *)
+  Definition renewal_fixed (cert : N) (r : roas) : rupd :=
+    mkRU (map (fun '(k, _) => (k, make_simple k)) (filter (fun '(k, _) => held cert k) (ro_simple r)))
+         (map fst (filter (fun '(k, _) => negb (held cert k)) (ro_simple r)))
+         (flat_map (fun '(a, i) => match filter (held cert) (ri_auths i) with [] => [] | l => [(a, make_aggr a l)] end) (ro_aggr r))
+         (flat_map (fun '(a, i) => match filter (held cert) (ri_auths i) with [] => [a] | _ => [] end) (ro_aggr r)).
+
   (** The payloads the ROAs of a class carry. *)
   Definition payloads (r : roas) : list N :=
     flat_map (fun '(_, i) => ri_auths i) (ro_simple r) ++ flat_map (fun '(_, i) => ri_auths i) (ro_aggr r).
@@ -129,6 +138,11 @@ Section Derive.
   (** The products as the CA model carries them (file name -> object), Ca.rc_roas. *)
   Definition roa_objects (r : roas) : list (N * obj) :=
     map (fun '(k, i) => (simple_name k, ri_obj i)) (ro_simple r) ++ map (fun '(a, i) => (aggr_name a, ri_obj i)) (ro_aggr r).
+
+  (** What the API reports for a configured payload (Roas::matching_roa_infos, roa.rs:469-493): the objects of the
+      simple and aggregate ROAs whose authorisations contain it. *)
+  Definition reported (r : roas) (p : N) : list obj :=
+    map (fun '(_, i) => ri_obj i) (filter (fun '(_, i) => nmem p (ri_auths i)) (ro_simple r ++ ro_aggr r)).
 
   (** One step of a class's history as far as ROAs are concerned: a change of the routes or of the certificate
       re-derives (certauth.rs route updates; rc.rs:408-424), a key-roll activation renews. *)
